@@ -6,6 +6,7 @@ import (
 	"crypto/sha256"
 	"encoding/json"
 	"fmt"
+	"github.com/sanonone/kektordb/pkg/core/hnsw"
 	"io"
 	"net/http"
 	"net/http/httptest"
@@ -170,6 +171,16 @@ func (v *Env) Digest() map[string]string {
 		if rules, err := v.E.VGetAutoLinks(ix); err == nil {
 			fmt.Fprintf(&b, "auto=%v", rules)
 		}
+		// index-level settings a request can change without touching any vector
+		if idx, ok := v.E.DB.GetVectorIndex(ix); ok {
+			if h, ok := idx.(*hnsw.Index); ok {
+				mc := h.GetMaintenanceConfig()
+				// the background "turbo refine" started by an import commit changes these two for
+				// its duration (documented); they are not part of what a request may not touch
+				mc.RefineBatchSize, mc.RefineEfConstruction = 0, 0
+				fmt.Fprintf(&b, "|maint=%s|mem=%s", jsonOf2(mc), jsonOf2(h.GetMemoryConfig()))
+			}
+		}
 		out["ix:"+ix] = b.String()
 	}
 	kv := v.E.DB.GetKVStore()
@@ -186,7 +197,6 @@ func (v *Env) Digest() map[string]string {
 	out["#kv"] = b.String()
 	return out
 }
-
 
 // DoReader is Do with a streaming body.
 func (v *Env) DoReader(method, path, token string, body io.Reader, timeout time.Duration) *httptest.ResponseRecorder {
@@ -211,4 +221,9 @@ func (v *Env) DoReader(method, path, token string, body io.Reader, timeout time.
 	case <-time.After(timeout + 2*time.Second):
 	}
 	return w
+}
+
+func jsonOf2(v any) string {
+	b, _ := json.Marshal(v)
+	return string(b)
 }
